@@ -133,10 +133,10 @@ func fixedScriptCorpus() []scriptCase {
 		{kind: "script", scenario: "strict-class-method-block-function-hoisted-as-sloppy",
 			src:  progPrelude + globalsPrelude() + "class x1 { m() { { function t1() {} } return typeof t1; } }\n$p(\"r\", new x1().m());\n",
 			opts: api.TransformOptions{Loader: api.LoaderJS, LogLevel: api.LogLevelSilent}, optDesc: "(defaults)"},
-		{kind: "script", scenario: "with-pinned-nested-name-captured-by-minified-name",
+		{kind: "script", scenario: "regression-with-pinned-nested-name-captured-by-minified-name",
 			src:  progPrelude + globalsPrelude() + "(function y() {\n  with ({}) { y; }\n  try { throw 1; } catch (x3) { $p(\"r\", typeof y, \"yyyyyyyyyyyyyyyyyyyyyyyyyyyyyyyyyyyyyyyyyyyyyyyyyyyyyyyyyyyyyyyyyyyyyyyyyyyyyyyyyyyyyyyyyyyyyyyyyyyyyyyyyyyyyyyy\"); }\n})();\n",
 			opts: api.TransformOptions{Loader: api.LoaderJS, MinifyIdentifiers: true, LogLevel: api.LogLevelSilent}, optDesc: "minify-identifiers"},
-		{kind: "script", scenario: "with-pinned-nested-name-captured-by-numbered-name",
+		{kind: "script", scenario: "regression-with-pinned-nested-name-captured-by-numbered-name",
 			src:  progPrelude + globalsPrelude() + "(function f1() {\n  var e2 = \"outer\";\n  with ({}) {\n    (function (e) { $p(\"r\", e2, typeof e); })(\"param\");\n  }\n})();\n",
 			opts: api.TransformOptions{Loader: api.LoaderJS, Format: api.FormatIIFE, LogLevel: api.LogLevelSilent}, optDesc: "format=iife"},
 		{kind: "script", scenario: "var-in-with-merged-with-parameter-is-renamed",
